@@ -1314,3 +1314,66 @@ func (t *Term) str(sb *strings.Builder, depth int) {
 	}
 	sb.WriteByte(')')
 }
+
+// Subst rebuilds t with the variables in m (by term ID) replaced, re-simplifying on the way.
+func (tb *Table) Subst(t *Term, m map[int]*Term, memo map[int]*Term) *Term {
+	if r, ok := memo[t.ID]; ok {
+		return r
+	}
+	var r *Term
+	switch t.Op {
+	case OpConst:
+		r = t
+	case OpVar:
+		if x, ok := m[t.ID]; ok {
+			r = x
+		} else {
+			r = t
+		}
+	default:
+		args := make([]*Term, len(t.Args))
+		changed := false
+		for i, a := range t.Args {
+			args[i] = tb.Subst(a, m, memo)
+			if args[i] != a {
+				changed = true
+			}
+		}
+		if !changed {
+			r = t
+			break
+		}
+		switch t.Op {
+		case OpAdd, OpSub, OpMul, OpUDiv, OpURem, OpSDiv, OpSRem, OpAnd, OpOr, OpXor, OpShl, OpLShr, OpAShr:
+			r = tb.bin(t.Op, args[0], args[1])
+		case OpNot:
+			r = tb.Not(args[0])
+		case OpNeg:
+			r = tb.Neg(args[0])
+		case OpConcat:
+			r = tb.Concat(args...)
+		case OpExtract:
+			r = tb.Extract(args[0], t.Hi, t.Lo)
+		case OpZExt:
+			r = tb.ZExt(args[0], t.W)
+		case OpSExt:
+			r = tb.SExt(args[0], t.W)
+		case OpIte:
+			r = tb.Ite(args[0], args[1], args[2])
+		case OpEq:
+			r = tb.Eq(args[0], args[1])
+		case OpULt, OpULe, OpSLt, OpSLe:
+			r = tb.cmp(t.Op, args[0], args[1])
+		case OpBAnd:
+			r = tb.BAnd(args...)
+		case OpBOr:
+			r = tb.BOr(args...)
+		case OpUF:
+			r = tb.mk(&Term{Op: OpUF, W: t.W, Name: t.Name, Args: args})
+		default:
+			panic("Subst: op")
+		}
+	}
+	memo[t.ID] = r
+	return r
+}
